@@ -173,6 +173,10 @@ func joinRpGroup(data *Data, db string, newNode *DataNode, replicasN int, rgStar
 				initFirstPtRg = true
 				data.PtView[db][ptLoc].RGID = uint32(len(data.ReplicaGroups[db]))
 				newRg.nextUnFull(replicasN, db)
+				if data.ReplicaGroups == nil {
+					// Unmarshal leaves the map nil when the snapshot holds no replica group
+					data.ReplicaGroups = make(map[string][]ReplicaGroup)
+				}
 				data.ReplicaGroups[db] = append(data.ReplicaGroups[db], *newRg)
 				DataLogger.Info("NodeHardChooseRG newRG", zap.String("db", db), zap.Uint32("newRGId", newRg.ID), zap.Uint32("masterPtId", pt.PtId))
 			}
